@@ -13,6 +13,7 @@ import PsutilModel.Proofs.C20
 import PsutilModel.Proofs.C20Two
 import PsutilModel.Proofs.C20FaultsFixed
 import PsutilModel.Proofs.C20Empty
+import PsutilModel.Proofs.C20NetIf
 namespace Psutil.C20
 open Spec
 
@@ -542,6 +543,69 @@ theorem C20_broadcast_counterexample :
 theorem C20_broadcast_posix_untouched (c : Cfg) (r : RawAddr) :
     (netIfAddrsEntry c false r).bcast = r.bcast := by
   simp [netIfAddrsEntry]
+
+/-! ### One call of `net_if_addrs()` on a native answer of ANY length (seeded round 5) -/
+
+/-- the value handed to `_replace(broadcast=…)` is bound in the record's own iteration on every path
+    (translator fact: definite assignment per iteration over the record loop) -/
+theorem cfg_broadcast_fresh : cfg.broadcastFresh = true := by decide
+
+/-- **C20_net_if_addrs_records_independent.** For every native answer (any number of records, any
+    NICs, any families, netmasks present / absent / rejected by the helper, in any order) and every
+    platform identity's family numbers: what `net_if_addrs()` appends is, position by position of the
+    family-sorted answer, the single-record post-processing of THAT record — whatever the records
+    before it were and whatever the surviving function-level name `broadcast` held. -/
+theorem C20_net_if_addrs_records_independent (w : Bool) (key : AddrFam → Nat) (rs : List (Nat × RawAddr)) :
+    netIfAddrs cfg w key rs = (sortByFam key rs).map fun x => (x.1, netIfAddrsEntry cfg w x.2) :=
+  netIfAddrsLoop_fresh cfg cfg_broadcast_fresh w none _
+
+/-- **C20_net_if_addrs_record_wise.** The specification's clause: the whole call is the record-wise
+    map of the single-record post-processing, up to the order of the records (nothing lost, nothing
+    invented, every NIC keeps its own records). -/
+theorem C20_net_if_addrs_record_wise (w : Bool) (key : AddrFam → Nat) :
+    Spec.RecordWise (netIfAddrsEntry cfg w) (netIfAddrs cfg w key) := by
+  intro rs
+  rw [C20_net_if_addrs_records_independent]
+  exact (sortByFam_perm key rs).map _
+
+/-- **C20_broadcast_rejected_netmask_leaves_record.** Every record `net_if_addrs()` returns stems from
+    one native record of the same NIC, and when the helper cannot compute that record's broadcast
+    address (netmask rejected, or absent) the record carries exactly the native layer's broadcast
+    value — on every platform, whatever else the native answer holds. -/
+theorem C20_broadcast_rejected_netmask_leaves_record (w : Bool) (key : AddrFam → Nat) (rs : List (Nat × RawAddr))
+    (o : Nat × OutAddr) (ho : o ∈ netIfAddrs cfg w key rs) :
+    ∃ x ∈ rs, o = (x.1, netIfAddrsEntry cfg w x.2) ∧
+      ((Spec.NetmaskRejected x.2 ∨ x.2.plen = none) → o.2.bcast = x.2.bcast) := by
+  have hp := (C20_net_if_addrs_record_wise w key rs).mem_iff.mp ho
+  obtain ⟨x, hx, rfl⟩ := List.mem_map.mp hp
+  refine ⟨x, hx, rfl, ?_⟩
+  rintro (h | h)
+  · rcases h with ⟨hf, n, hn, hlt⟩ | ⟨hf, n, hn, hlt⟩
+    · have h1 : (x.2.fam == AddrFam.inet) = true := by rw [hf]; decide
+      have h2 : ¬ n ≤ 32 := by omega
+      cases w <;> simp [netIfAddrsEntry, h1, hn, h2]
+    · have h0 : (x.2.fam == AddrFam.inet) = false := by rw [hf]; decide
+      have h1 : (x.2.fam == AddrFam.inet6) = true := by rw [hf]; decide
+      have h2 : ¬ n ≤ 128 := by omega
+      cases w <;> simp [netIfAddrsEntry, h0, h1, hn, h2]
+  · exact C20_broadcast_untouched_without_netmask cfg w x.2 h
+
+/-- non-vacuous, the adversary's shape: Ethernet IPv4 /24 then an IPv6 record whose netmask the
+    helper rejects — the IPv6 record keeps the native `None`, the IPv4 one gets its broadcast -/
+example :
+    (netIfAddrs cfg true (fun f => match f with | .link => 0 | .inet => 2 | .inet6 => 10 | .other => 99)
+      [(0, ⟨.inet, [], 3232235786, some 24, none⟩), (0, ⟨.inet6, [], 0xfe800000000000000000000000000001, some 129, none⟩)]).map
+      (fun o => o.2.bcast) = [some 3232236031, none] := by decide
+
+/-- **C20_broadcast_carry_counterexample.** A front end in which a path reaches `_replace(broadcast=…)`
+    with the name still holding the PREVIOUS record's value (`broadcastFresh := false`: e.g. the
+    fix-up moved into a second pass with `try / except` flattened) is not record-wise: the record
+    whose netmask the helper rejects comes back with its neighbour's broadcast address. -/
+theorem C20_broadcast_carry_counterexample :
+    (netIfAddrs { cfg with broadcastFresh := false } true
+        (fun f => match f with | .link => 0 | .inet => 2 | .inet6 => 10 | .other => 99)
+        [(0, ⟨.inet, [], 3232235786, some 24, none⟩), (1, ⟨.inet, [], 2886730249, some 33, none⟩)]).map
+      (fun o => o.2.bcast) = [some 3232236031, some 3232236031] := by decide
 
 /-! ## 5. The other platform-conditional branches of the front end -/
 
